@@ -3,6 +3,7 @@ package props
 import (
 	"fmt"
 	"sort"
+	"strings"
 	"sync"
 	"time"
 
@@ -66,6 +67,12 @@ type Scenario struct {
 	StateOracle func(w *harness.World, ctx sdk.Context, aux interface{}) []*explore.Violation
 	// PanicIsViolation: a panic in block processing is reported under this property id ("" = not reported here).
 	BlockPanicProperty string
+	// RepeatProperty / Repeat: every transition is executed Repeat more times on fresh branches of the
+	// same state; outcome, events and resulting state must be identical every time (Go randomises the
+	// order of every map range, so a handler that lets a map decide the order of events or writes
+	// gives different results from one execution to the next even inside one process).
+	RepeatProperty string
+	Repeat         int
 }
 
 type scnState struct {
@@ -144,6 +151,57 @@ func (w *scnWorker) Apply(s interface{}, evi int, check bool) (explore.Step, []*
 	}
 	child := &scnState{ctx: next, aux: st.aux}
 	var vs []*explore.Violation
+	if check && w.scn.Repeat > 0 && ev.Custom == nil && out.Class != harness.Panic {
+		sigOf := func(c sdk.Context, o harness.Outcome) string {
+			var sb strings.Builder
+			sb.WriteString(o.Key())
+			for _, e := range o.Events {
+				sb.WriteString("|" + e.Type)
+				for _, a := range e.Attributes {
+					sb.WriteString(" " + string(a.Key) + "=" + string(a.Value))
+				}
+			}
+			return sb.String() + "#" + harness.Digest(w.w.App, c, w.scn.T0, w.scn.ExtraStores...)
+		}
+		first := sigOf(next, out)
+		for i := 0; i < w.scn.Repeat; i++ {
+			var c2 sdk.Context
+			var o2 harness.Outcome
+			if ev.Block > 0 {
+				if w.scn.BlockFn != nil {
+					c2, o2 = w.w.ModuleBlock(st.ctx, ev.Block, func(c sdk.Context) { w.scn.BlockFn(w.w, c) })
+				} else {
+					c2, o2 = w.w.NextBlock(st.ctx, ev.Block)
+				}
+			} else {
+				var then []sdk.Msg
+				if ev.Then != nil {
+					then = ev.Then(View{App: w.w.App, Ctx: st.ctx})
+				}
+				c2, o2 = w.w.ExecMsg(st.ctx, msg, harness.ExecOpts{Ante: !ev.Gov, Signer: signer, Fee: ev.Fee, Then: then})
+			}
+			if again := sigOf(c2, o2); again != first {
+				p := 0
+				for p < len(first) && p < len(again) && first[p] == again[p] {
+					p++
+				}
+				lo := p - 80
+				if lo < 0 {
+					lo = 0
+				}
+				cut := func(x string) string {
+					hi := p + 120
+					if hi > len(x) {
+						hi = len(x)
+					}
+					return x[lo:hi]
+				}
+				vs = append(vs, &explore.Violation{Property: w.scn.RepeatProperty, Sig: w.scn.RepeatProperty + ":same-state-same-event-different-result:" + evKind(ev.Name),
+					What: fmt.Sprintf("%s executed again on the same state gives a different result: ...%s... vs ...%s...", ev.Name, cut(first), cut(again))})
+				break
+			}
+		}
+	}
 	if ev.Block > 0 && out.Class == harness.Panic {
 		if check && w.scn.BlockPanicProperty != "" {
 			vs = append(vs, &explore.Violation{Property: w.scn.BlockPanicProperty, What: "block processing panicked: " + firstLine(out.Log),
